@@ -7,6 +7,7 @@ import (
 	"fmt"
 	"os"
 
+	"verif/harness/c13"
 	"verif/harness/c14"
 	"verif/harness/c17"
 	"verif/harness/cr"
@@ -30,6 +31,12 @@ func main() {
 	_ = in
 	_ = mode
 	switch prop {
+	case "c13":
+		if *mode == "bam" {
+			c13.RunBAM(*out)
+		} else {
+			c13.Run(*out)
+		}
 	case "c14":
 		if *mode == "conc" {
 			c14.RunConc(*out)
